@@ -170,6 +170,8 @@ def _dump_ballots(votes: Dict[Tuple[Candidate, ...], Number],
         yield f'{prefix}={cand_nicks[cand]} {cand_names[cand]}'
     yield f'ballots={len(votes)}'
     for ranking, n_votes in votes.items():
+        if n_votes < 0:
+            raise NotSupportedInSTV(f'negative ballot weight: {n_votes}')
         line = _ranking_to_str(ranking, cand_nicks)
         if n_votes != 1 or line in ('', 'end'):
             # an empty line or a bare 'end' would not be read as a ballot
